@@ -221,6 +221,46 @@ def gen_failures(ctx, rnd):
                options={"header": ["Sec-WebSocket-Key"]}, tag="manual-key-in-list")
 
 
+def gen_options_chain(ctx, rnd):
+    """options (and the cookie jar, Set-Cookie of the redirect responses included) carried across redirects"""
+    n = 1500 if ctx.thorough() else 250
+    hdr_choices = [None, ["X-A: 1"], {"X-A": "1", "X-N": None}, {"Sec-WebSocket-Key": "dGhlIHNhbXBsZSBub25jZQ=="}, []]
+    for _ in range(n):
+        k = rnd.choice([0, 1, 1, 2])
+        rs = rands(rnd, k + 1)
+        opts = {}
+        if rnd.random() < 0.4:
+            opts["host"] = rnd.choice(["override.example", ""])
+        if rnd.random() < 0.4:
+            opts["origin"] = rnd.choice([None, "https://o.example"])
+        if rnd.random() < 0.3:
+            opts["suppress_origin"] = True
+        offered = rnd.choice([None, ["chat"], ["chat", "superchat"]])
+        if offered:
+            opts["subprotocols"] = offered
+        if rnd.random() < 0.4:
+            opts["cookie"] = rnd.choice(["a=1", ""])
+        h = rnd.choice(hdr_choices)
+        if h is not None:
+            opts["header"] = h
+        if rnd.random() < 0.3:
+            opts["connection"] = rnd.choice(["Upgrade", "keep-alive, Upgrade"])
+        manual = isinstance(h, dict) and "Sec-WebSocket-Key" in h
+        dials, locs = [], []
+        for i in range(k):
+            loc = rnd.choice([f"ws://h{i + 1}.example/p", "ws://example.com/again", f"wss://s{i + 1}.example:8443/q?x=1"])
+            locs.append(loc)
+            hdrs = [("Location", loc)]
+            if rnd.random() < 0.5:
+                hdrs.append(("Set-Cookie", rnd.choice(["sid=abc; Domain=example.com", "t=1; Domain=.example", "u=2"])))
+            dials.append(DialSpec([("chunk", response(str(rnd.choice(REDIRECTS)), hdrs, reason="Moved"))], rand=rs[i]))
+        key = h["Sec-WebSocket-Key"] if manual else key_of(rs[k])
+        sub = rnd.choice([None] + (offered or []) + ["other"]) if offered else rnd.choice([None, "chat"])
+        dials.append(DialSpec([("chunk", response("101", good_headers(key, sub=sub)))], rand=rs[k]))
+        yield Case("ws://example.com/chat", dials, options=opts, locations=locs,
+                   seed_cookies=rnd.choice([(), ("z=9; Domain=example.com",)]), tag=f"optchain:{k}")
+
+
 def gen_soup(ctx, rnd):
     """duplicated / oddly written header fields around an otherwise right response"""
     n = 2500 if ctx.thorough() else 350
@@ -454,7 +494,7 @@ def run_corpus(ctx):
 
 def all_cases(ctx):
     rnd = ctx.rng("e2e")
-    for g in (gen_chains, gen_failures, gen_single, gen_truncations, gen_soup):
+    for g in (gen_chains, gen_failures, gen_options_chain, gen_single, gen_truncations, gen_soup):
         yield from g(ctx, rnd)
 
 
